@@ -17,7 +17,7 @@ var poolDecs = []Val{dv("0.0"), dv("1.0"), dv("1.00"), dv("-1.0"), dv("0.5"), dv
 	dv("2147483647.0"), dv("2147483648.0"), dv("-2147483649.0"), dv("9999999999.9"), dv("100.0"), dv("1000.0"), dv("-1000.0")}
 
 var poolStrs = []Val{sv(""), sv("a"), sv("abc"), sv("ABC"), sv("héllo"), sv("日本語"), sv("😀x"), sv("é"), sv("a b"), sv(" lead"), sv("O'Neil"), sv(`back\slash`),
-	sv("1"), sv("1.0"), sv("-5"), sv("+1"), sv("true"), sv("T"), sv("false"), sv("2020-01-01"), sv("2020-02-30"), sv("2020-01-01T10:00:00Z"), sv("10:00:00"), sv("24:00"),
+	sv("1"), sv("1.0"), sv("-5"), sv("+1"), sv("1e3"), sv("2e47483647"), sv("true"), sv("T"), sv("false"), sv("2020-01-01"), sv("2020-02-30"), sv("2020-01-01T10:00:00Z"), sv("10:00:00"), sv("24:00"),
 	sv("5 'mg'"), sv("5 days"), sv("5"), sv("abc.def"), sv("[a"), sv("(a+)+$"), sv("official"), sv("http://example.org/a")}
 
 var poolBools = []Val{bv(true), bv(false)}
@@ -29,6 +29,21 @@ var poolDateTimes = []Val{
 	dtV("2020-02-29T10Z"), dtV("2020-02-29T10:30Z"), dtV("2020-02-29T10:30:00Z"), dtV("2020-02-29T10:30:00.000Z"),
 	dtV("2020-02-29T16:00:00+05:30"), dtV("2020-02-29T05:30:00-05:00"), dtV("2020-02-29T15+05:30"), dtV("2020-03-01T00:30:00+14:00"), dtV("2020-02-28T23:30:00-11:00"),
 	dtV("2020-02-29T10:30:01Z"), dtV("2019-12-31T23:59:59Z"), dtV("0001-01-01T00:00:00Z"), dtV("9999-12-31T23:59:59Z"), dtV("2020-01-01T"), dtV("2021T"),
+	dtV("2020-02-29T10:30:00.5+02:00"), dtV("2020-02-29T05:00:00.25-03:30"), dtV("2020-02-29T07:00:00-03:30"), dtV("2020-02-29T10:30:00.5"),
+}
+
+// genOffset: a generated UTC offset within the FHIR range [-12:00, +14:00], quarter-hour minutes.
+func genOffset(s Src) string {
+	sign, maxH := "+", 14
+	if s.Bool() {
+		sign, maxH = "-", 12
+	}
+	h := s.Range(0, maxH)
+	m := pickOne(s, []int{0, 30, 45, 15})
+	if h == maxH {
+		m = 0
+	}
+	return fmt.Sprintf("%s%02d:%02d", sign, h, m)
 }
 
 var poolTimes = []Val{timeV("10"), timeV("10:30"), timeV("10:30:00"), timeV("10:30:00.000"), timeV("10:30:00.500"), timeV("00:00:00"), timeV("23:59:59"), timeV("23:59:59.999"), timeV("10:31"), timeV("11"), timeV("00")}
